@@ -375,6 +375,7 @@ func checkCodec(c *core.Check, which string) {
 		doc  []byte
 		mut  string
 		prop string
+		esc  bool // respelled with every string escaped and a date-time string sits in a collection (known finding)
 	}
 	metas := map[string]meta{}
 	typeSchema := map[string]map[string]any{}
@@ -424,8 +425,17 @@ func checkCodec(c *core.Check, which string) {
 				caseN++
 				cid := fmt.Sprintf("d%d", caseN)
 				bs, _ := json.Marshal(dc.doc)
+				esc := false
+				if caseN%3 == 0 {
+					// the same document as another producer would spell it (escapes, white space)
+					full := caseN%2 == 0
+					var dv any
+					json.Unmarshal(bs, &dv)
+					bs = respellJSON(bs, rng, full)
+					esc = full && escapedTimeInCollection(rs, dv)
+				}
 				g.Codec = append(g.Codec, driver.CodecCase{ID: cid, Type: tn, Op: "decode", Doc: base64.StdEncoding.EncodeToString(bs)})
-				metas[cid] = meta{typ: id + "/" + tn, sch: rs, doc: bs, mut: dc.mut, prop: dc.prop}
+				metas[cid] = meta{typ: id + "/" + tn, sch: rs, doc: bs, mut: dc.mut, prop: dc.prop, esc: esc}
 				if dc.mut == "none" {
 					caseN++
 					rid := fmt.Sprintf("e%d", caseN)
@@ -458,9 +468,17 @@ func checkCodec(c *core.Check, which string) {
 					caseN++
 					cid := fmt.Sprintf("b%d", caseN)
 					bs, _ := json.Marshal(dc.doc)
+					esc := false
+					if caseN%3 == 0 {
+						full := caseN%2 == 0
+						var dv any
+						json.Unmarshal(bs, &dv)
+						bs = respellJSON(bs, rng, full)
+						esc = full && escapedTimeInCollection(rs, dv)
+					}
 					bg.Cases = append(bg.Cases, driver.ReqCase{ID: cid, Method: "POST", Path: "/body/" + strings.ToLower(tn), Headers: map[string][]string{"Content-Type": {"application/json"}},
 						Body: string(bs), HasBody: true, Chunked: caseN%2 == 0, Reads: plans[caseN%len(plans)], Script: driver.Script{Parse: true}})
-					metas[cid] = meta{typ: id + "/" + tn, sch: rs, doc: bs, mut: dc.mut, prop: dc.prop}
+					metas[cid] = meta{typ: id + "/" + tn, sch: rs, doc: bs, mut: dc.mut, prop: dc.prop, esc: esc}
 				}
 			}
 			if len(bg.Cases) > 0 {
@@ -542,14 +560,14 @@ func checkCodec(c *core.Check, which string) {
 				ok, _ := e["ok"].(bool)
 				derr, _ := e["err"].(string)
 				names := m.prop != "" && (strings.Contains(derr, "'"+m.prop+"'") || strings.Contains(derr, "\""+m.prop+"\""))
-				add(map[string]any{"ev": "Body", "case": cid, "type": tn, "mut": m.mut, "prop": m.prop, "reached": true, "ok": ok, "names": names, "panic": trunc(pan, 200)})
+				add(map[string]any{"ev": "Body", "case": cid, "type": tn, "mut": m.mut, "prop": m.prop, "reached": true, "ok": ok, "names": names, "panic": trunc(pan, 200), "escTime": m.esc && strings.Contains(derr, "parsing time")})
 				info[cid] = map[string]any{"type": tn, "schema": m.sch, "request_body": string(m.doc), "mutation": m.mut, "property": m.prop, "parse_error": derr, "panic": trunc(pan, 600)}
 				nDec++
 				continue
 			}
 			if e["ev"] == "Done" {
 				if !parsedCase[cid] {
-					add(map[string]any{"ev": "Body", "case": cid, "type": tn, "mut": m.mut, "prop": m.prop, "reached": false, "ok": false, "names": false, "panic": trunc(pan, 200)})
+					add(map[string]any{"ev": "Body", "case": cid, "type": tn, "mut": m.mut, "prop": m.prop, "reached": false, "ok": false, "names": false, "panic": trunc(pan, 200), "escTime": false})
 					info[cid] = map[string]any{"type": tn, "request_body": string(m.doc), "note": "the request never reached Parse()", "status": e["status"], "panic": trunc(pan, 600)}
 				}
 				continue
@@ -595,7 +613,7 @@ func checkCodec(c *core.Check, which string) {
 				}
 				derr, _ := e["decErr"].(string)
 				names := m.prop != "" && (strings.Contains(derr, "'"+m.prop+"'") || strings.Contains(derr, "\""+m.prop+"\""))
-				add(map[string]any{"ev": "Dec", "case": cid, "type": tn, "doc": core.ParseJ(m.doc), "mut": m.mut, "prop": m.prop, "decOK": decOK, "names": names, "encOK": encOK, "re": re, "panic": trunc(pan, 200)})
+				add(map[string]any{"ev": "Dec", "case": cid, "type": tn, "doc": core.ParseJ(m.doc), "mut": m.mut, "prop": m.prop, "decOK": decOK, "names": names, "encOK": encOK, "re": re, "panic": trunc(pan, 200), "escTime": m.esc && strings.Contains(derr, "parsing time")})
 				info[cid] = map[string]any{"type": tn, "schema": m.sch, "document": string(m.doc), "mutation": m.mut, "property": m.prop, "decErr": derr, "reencoded": string(out), "panic": trunc(pan, 600)}
 			}
 		}
